@@ -33,7 +33,7 @@ RULE = ('images generated per format from trait vectors (each of the 64 qcow2 in
         'LUKS versions, truncation at every structure boundary) x 2-3 chunk schedules, fed directly, through '
         'InspectWrapper and through cli.main (in-process + real subprocess sample); injected exceptions in every '
         'registered check. non-trivial = MUST-REJECT or MUST-ACCEPT case; distinct by (spec, path, schedule)')
-REQUIRED_CLAUSES = ['carrier-independent', 'still-rejected-after-a-caught-eat_chunk-error', 'interleaved-instances', 'must-reject', 'must-accept', 'responsible-check-named', 'fault-in-check-is-failure',
+REQUIRED_CLAUSES = ['under-debug-logging', 'carrier-independent', 'still-rejected-after-a-caught-eat_chunk-error', 'interleaved-instances', 'must-reject', 'must-accept', 'responsible-check-named', 'fault-in-check-is-failure',
                     'fault-inside-check-code-is-failure',
                     'cli-exit-status', 'cli-subprocess', 'mbr-family', 'only-documented-exceptions',
                     'no-safety-check-declared']
